@@ -30,7 +30,7 @@ impl Totals {
         self.count += 1;
         let (class, ratio) = match q.unit() {
             None => ("(no unit)".to_string(), 1.0),
-            Some(u) => match BUNDLED.find_unit(u) {
+            Some(u) => match CONV.find_unit(u) {
                 Some(unit) => (format!("{}", unit.physical_quantity), unit.ratio),
                 None => (format!("unit:{u}"), 1.0),
             },
@@ -99,10 +99,19 @@ pub struct QM {
     pub unit: u8,
 }
 
-const Q_UNITS: [Option<&str>; 20] = [
+/// the bundled units plus two aliases that differ only in case (`T` tablespoon, `t` teaspoon), as many
+/// cookbooks write them
+static CONV: std::sync::LazyLock<cooklang::Converter> = std::sync::LazyLock::new(|| {
+    let layer: cooklang::convert::UnitsFile = toml::from_str("[extend.units]\ntbsp = { aliases = [\"T\"] }\ntsp = { aliases = [\"t\"] }\n").expect("layer");
+    cooklang::convert::ConverterBuilder::new().with_bundled_units().and_then(|b| b.with_units_file(layer)).and_then(|b| b.finish()).expect("bundled units + aliases")
+});
+
+const Q_UNITS: [Option<&str>; 22] = [
     None, Some("g"), Some("kg"), Some("oz"), Some("lb"), Some("ml"), Some("l"), Some("cups"), Some("tsp"), Some("min"), Some("hours"), Some("cm"), Some("bag"), Some("cloves"), Some("grams"), Some("L"),
     // unknown units that are not all lower case, one of them differing from another only by case
     Some("EL"), Some("Pkg"), Some("Bag"), Some("Stück"),
+    // known units whose keys differ only in case
+    Some("T"), Some("t"),
 ];
 
 impl QM {
@@ -143,7 +152,7 @@ fn check_group_api(g: &GroupedQuantity) -> Verdict {
 fn check_try_add(a: &ScaledQuantity, b: &ScaledQuantity, ops: &Vec<Op>) -> Verdict {
     let both = Totals::of([a.clone(), b.clone()].iter());
     let addable = both.texts.is_empty() && both.sums.len() == 1;
-    match guard(|| a.try_add(b, &BUNDLED)) {
+    match guard(|| a.try_add(b, &*CONV)) {
         Err(p) => vbail!("c10.panic.add", "Quantity::try_add panicked: {p}; {a:?} + {b:?}; history {ops:?}"),
         Ok(Ok(sum)) => {
             vensure!(addable, "c10.try-add-accepted", "try_add({a:?}, {b:?}) gave {sum:?} although the two cannot be summed (text value or different classes of unit); history {ops:?}");
@@ -175,7 +184,7 @@ fn check_history(ops: &Vec<Op>, st: &mut Stats) -> Verdict {
                 }
                 prev = Some(q.clone());
                 model.add(&q);
-                if let Err(p) = guard(|| g.add(&q, &BUNDLED)) {
+                if let Err(p) = guard(|| g.add(&q, &*CONV)) {
                     vbail!("c10.panic.add", "GroupedQuantity::add panicked: {p}; history {ops:?}");
                 }
             }
@@ -185,14 +194,14 @@ fn check_history(ops: &Vec<Op>, st: &mut Stats) -> Verdict {
                 for q in qs {
                     let q = q.quantity();
                     model.add(&q);
-                    other.add(&q, &BUNDLED);
+                    other.add(&q, &*CONV);
                 }
-                if let Err(p) = guard(|| g.merge(&other, &BUNDLED)) {
+                if let Err(p) = guard(|| g.merge(&other, &*CONV)) {
                     vbail!("c10.panic.merge", "GroupedQuantity::merge panicked: {p}; history {ops:?}");
                 }
             }
             Op::Fit => {
-                if let Err(p) = guard(|| g.fit(&BUNDLED)) {
+                if let Err(p) = guard(|| g.fit(&*CONV)) {
                     vbail!("c10.panic.fit", "GroupedQuantity::fit panicked: {p}; history {ops:?}");
                 }
             }
@@ -232,17 +241,17 @@ fn scaled(raw: &RawRecipe, factor: Option<f64>, st: &mut Stats) -> Option<(Strin
     }
     let r = res.into_output().unwrap();
     Some((src, match factor {
-        Some(f) => r.scale(f, &BUNDLED),
+        Some(f) => r.scale(f, &*CONV),
         None => r.default_scale(),
     }))
 }
 
 fn has_temperature(r: &ScaledRecipe) -> bool {
-    r.ingredients.iter().any(|i| i.quantity.as_ref().and_then(|q| q.unit()).and_then(|u| BUNDLED.find_unit(u)).is_some_and(|u| u.physical_quantity == cooklang::convert::PhysicalQuantity::Temperature))
+    r.ingredients.iter().any(|i| i.quantity.as_ref().and_then(|q| q.unit()).and_then(|u| CONV.find_unit(u)).is_some_and(|u| u.physical_quantity == cooklang::convert::PhysicalQuantity::Temperature))
 }
 
 fn check_recipe_grouping(src: &str, r: &ScaledRecipe, st: &mut Stats) -> Verdict {
-    let groups = match guard(|| r.group_ingredients(&BUNDLED)) {
+    let groups = match guard(|| r.group_ingredients(&*CONV)) {
         Ok(g) => g,
         Err(p) => vbail!("c10.panic.group_ingredients", "group_ingredients panicked: {p}; source {src:?}"),
     };
@@ -273,7 +282,7 @@ fn check_recipe_grouping(src: &str, r: &ScaledRecipe, st: &mut Stats) -> Verdict
         if let Err(e) = model.same(&listed) {
             vbail!("c10.all-quantities", "ingredient {} ({:?}): all_quantities() differs from the quantities of the definition and its references: {e}; source {src:?}", g.index, g.ingredient.name);
         }
-        match guard(|| g.ingredient.group_quantities(&r.ingredients, &BUNDLED)) {
+        match guard(|| g.ingredient.group_quantities(&r.ingredients, &*CONV)) {
             Ok(own) => {
                 if let Err(e) = model.same(&Totals::of(own.iter())) {
                     vbail!("c10.ingredient-group-total", "ingredient {} ({:?}): group_quantities() gives {own}, which differs from the sum of its quantities: {e}; source {src:?}", g.index, g.ingredient.name);
@@ -359,7 +368,7 @@ fn check_case(c: &RecipeCase, st: &mut Stats) -> Verdict {
     let mut list = IngredientList::new();
     let mut model: BTreeMap<String, Totals> = BTreeMap::new();
     for (_, r) in &recipes {
-        if let Err(p) = guard(|| list.add_recipe(r, &BUNDLED)) {
+        if let Err(p) = guard(|| list.add_recipe(r, &*CONV)) {
             vbail!("c10.panic.add_recipe", "IngredientList::add_recipe panicked: {p}; sources {srcs:?}");
         }
         for (idx, i) in r.ingredients.iter().enumerate() {
@@ -396,15 +405,15 @@ fn check_case(c: &RecipeCase, st: &mut Stats) -> Verdict {
     // consuming iterator
     let mut by_hand = IngredientList::new();
     for (_, r) in &recipes {
-        for g in r.group_ingredients(&BUNDLED) {
+        for g in r.group_ingredients(&*CONV) {
             if g.ingredient.modifiers().should_be_listed() {
-                by_hand.add_ingredient(g.ingredient.display_name().into_owned(), &g.quantity, &BUNDLED);
+                by_hand.add_ingredient(g.ingredient.display_name().into_owned(), &g.quantity, &*CONV);
             }
         }
     }
     let mut views: Vec<(&str, BTreeMap<String, Totals>)> = vec![("add_ingredient per grouped ingredient", by_hand.iter().map(|(k, q)| (k.clone(), Totals::of(q.iter()))).collect())];
     if recipes.len() == 1 {
-        let l = IngredientList::from_recipe(&recipes[0].1, &BUNDLED);
+        let l = IngredientList::from_recipe(&recipes[0].1, &*CONV);
         views.push(("IngredientList::from_recipe", l.iter().map(|(k, q)| (k.clone(), Totals::of(q.iter()))).collect()));
     }
     views.push(("the consuming iterator of the hand-built list", by_hand.into_iter().map(|(k, q)| (k, Totals::of(q.iter()))).collect()));
@@ -529,7 +538,7 @@ fn check_case(c: &RecipeCase, st: &mut Stats) -> Verdict {
 }
 
 fn qm() -> impl Strategy<Value = QM> {
-    (0u8..3, 0u32..4000, 0u32..400, 0u8..20).prop_map(|(kind, a, b, unit)| QM { kind, a, b, unit })
+    (0u8..3, 0u32..4000, 0u32..400, 0u8..22).prop_map(|(kind, a, b, unit)| QM { kind, a, b, unit })
 }
 
 pub fn run(tier: Tier) -> i32 {
